@@ -75,6 +75,10 @@ func c19Drivers() []*icCfg {
 	big := hOpts{MaxSize: 10, ChanSize: 4, BufSize: 2}
 	small := hOpts{MaxSize: 1, ChanSize: 4, BufSize: 2}
 	tick := icOp{Kind: "tick", Arg: 2 * sec}
+	const long = 3600 * sec
+	H := func(k int) icOp { return icOp{Kind: "hget", K: k} }
+	HD := func(k int) icOp { return icOp{Kind: "hdel", K: k} }
+	W, Z := icOp{Kind: "wait"}, icOp{Kind: "settle"}
 	return []*icCfg{
 		{Name: "R1-save-vs-writes", O: big, Pre: []icOp{S(1), S(2)}, Scripts: [][]icOp{{{Kind: "persist"}}, {S(1), D(2)}, {G(1), G(2)}}},
 		{Name: "R2-range-vs-expiry", O: big, Pre: []icOp{T(1, sec), S(2)}, Scripts: [][]icOp{{{Kind: "range"}}, {S(2), T(1, 5*sec)}, {tick}}},
@@ -85,6 +89,14 @@ func c19Drivers() []*icCfg {
 		// Close overlapping the once-per-second maintenance tick (which reads the closed mark and walks the wheel)
 		{Name: "R4d-close-vs-tick", O: big, Pre: []icOp{T(1, sec)}, Scripts: [][]icOp{{{Kind: "close"}}, {tick}}},
 		{Name: "R4e-close-vs-tick-vs-set", O: big, Pre: []icOp{T(1, sec)}, Scripts: [][]icOp{{{Kind: "close"}}, {tick}, {S(2)}}},
+		// hybrid caches: the real worker goroutine (processSecondary) copying a queued entry, promotion from the
+		// secondary tier, DeleteWithSecondary and Close, against writers of the same key
+		{Name: "R9-hybrid-promote-vs-set", O: small, Hy: &hyIcCfg{Workers: 1, Prob: 1}, Pre: []icOp{T(1, long), T(2, long), W, Z}, Scripts: [][]icOp{{H(1)}, {T(1, long)}}},
+		{Name: "R9b-hybrid-worker-vs-delete", O: small, Hy: &hyIcCfg{Workers: 1, Prob: 1}, Pre: []icOp{T(1, long), T(2, long), W}, Scripts: [][]icOp{{HD(1)}, {H(2), T(1, long)}}},
+		{Name: "R9c-hybrid-close", O: small, Hy: &hyIcCfg{Workers: 1, Prob: 1}, Pre: []icOp{T(1, long), T(2, long), W}, Scripts: [][]icOp{{{Kind: "close"}}, {H(1)}}},
+		{Name: "R9d-hybrid-loading", O: small, Hy: &hyIcCfg{Workers: 1, Prob: 1}, Loading: true, LoadCost: 1, LoadTTL: long, Pre: []icOp{T(1, long), T(2, long), W, Z}, Scripts: [][]icOp{{L(1)}, {T(1, long)}}},
+		{Name: "R9e-hybrid-close-3", O: small, Hy: &hyIcCfg{Workers: 1, Prob: 1}, Pre: []icOp{T(1, long), T(2, long), W}, Scripts: [][]icOp{{{Kind: "close"}}, {H(1), T(3, long)}}},
+		{Name: "R9f-hybrid-loading-3", O: small, Hy: &hyIcCfg{Workers: 1, Prob: 1}, Loading: true, LoadCost: 1, LoadTTL: long, Pre: []icOp{T(1, long), T(2, long), W, Z}, Scripts: [][]icOp{{L(1)}, {T(1, long)}, {L(3)}}},
 		{Name: "R5-loading", O: big, Loading: true, LoadCost: 1, Scripts: [][]icOp{{L(1), G(1)}, {L(1)}, {S(1), D(1)}}},
 		{Name: "R6-update-vs-evict", O: small, Pre: []icOp{S(1)}, Scripts: [][]icOp{{S(1), S(1)}, {S(2)}, {G(1), {Kind: "range"}}}},
 		// read buffer with every atomic a scheduling point and capacity 2 (build schedTrackBuf): drains, Free and refills overlap
